@@ -276,7 +276,9 @@ def execute(case):
             # fixed point is comfortably within reach of plain sweeps at the stated tolerance (lag dynamics may blow the
             # values up until an absolute 1e-10 is below the floating-point spacing): decided by an independent plain
             # Jacobi reference with half the cap and a quarter of the tolerance
-            if not comfortably_solvable(block, obj):
+            # (with equation reduction on, the module iterates the *reduced* system, whose sweep map - and speed - is
+            # not the submitted block's: the plain-Jacobi reference says nothing about it)
+            if bool((case.get('knobs') or {}).get('reduction')) or not comfortably_solvable(block, obj):
                 stats['probes']['nonconvergence_inconclusive'] = 1
                 return {'violations': [], 'stats': stats, 'sig': sig, 'digest': core.digest([phase, cls, 'inconclusive']),
                         'nontrivial': False}
